@@ -1,2 +1,4 @@
 import CvProofs.Spec
 import CvProofs.RefBfs
+import CvProofs.Tensor
+import CvProofs.Hash
